@@ -154,7 +154,7 @@ var _ = encoders.EncoderTypeLZ4
 func init() {
 	register("C12", &explore.Scenario{
 		ID: "C12", Name: "interface summary vs stored blocks and vs query totals", Level: "exploration",
-		Rule: "cases = 3 databases (6 blocks over 3 days incl. month change with per-block drops; single block; 3 blocks in one day) x ALL pairs first<=last over 20 boundary instants (before data, block-1s, on block, block+1s, between blocks, day boundaries, after data). Oracle 1: ReadMetadata flows v4/v6, drops and four counters = sum over reference blocks with first<=ts<=last; oracle 2: counters = Summary.Totals of a real query over the same interface and range. non-trivial = ranges containing >=1 block, distinct by (db, first, last)",
+		Rule:     "cases = 3 databases (6 blocks over 3 days incl. month change with per-block drops; single block; 3 blocks in one day) x ALL pairs first<=last over 20 boundary instants (before data, block-1s, on block, block+1s, between blocks, day boundaries, after data). Oracle 1: ReadMetadata flows v4/v6, drops and four counters = sum over reference blocks with first<=ts<=last; oracle 2: counters = Summary.Totals of a real query over the same interface and range. non-trivial = ranges containing >=1 block, distinct by (db, first, last)",
 		Cases:    func(t string) int { return 3 },
 		Bound:    func(t string) int { return 0 },
 		Run:      c12Run,
